@@ -372,6 +372,12 @@ class OrderStore:
     def declare(self, a, relation, b):
         """Known fact, e.g. ("s","lower") "<=" ("s","upper")."""
         self._declared = tuple(self._declared) + ((a, b, relation),)
+        # both sides join the store at once, so that what follows from several declared facts together (l0<=u0<l1
+        # implies l0<l1) is known before the first comparison is decided
+        for key in (a, b):
+            if key in _INTEGER_KEYS:
+                self.integer_symbols.add(key)
+            self._index(key)
         self._apply_declared()
 
     def _apply_declared(self):
@@ -564,7 +570,7 @@ class Interp:
             return True
         if name in BUILTIN_EXCEPTIONS or name in ("object",):
             return ExtRef("builtins." + name)
-        if name in _BUILTIN_FUNCTIONS:
+        if name in _BUILTIN_FUNCTIONS or ("builtins." + name) in self.externals:
             return ExtRef("builtins." + name)
         raise Undecided("unknown global name %r" % name)
 
@@ -834,7 +840,11 @@ class Interp:
                         if position and receiver:
                             parts.append(receiver)
                         parts.extend(_fragments(item))
-                    return Opaque("str", None, parts)
+                    truthy = None
+                    if (receiver and len(items) > 1) or any(
+                            isinstance(i, Atom) or (isinstance(i, str) and i) or (isinstance(i, Opaque) and i.truthy) for i in items):
+                        truthy = True
+                    return Opaque("str", truthy, parts)
                 return receiver.join(items)
         if name == "index" and isinstance(receiver, (list, tuple)):
             for position, item in enumerate(receiver):
@@ -896,6 +906,9 @@ class Interp:
         if a is None or b is None:
             return False
         if isinstance(a, Opaque) or isinstance(b, Opaque):
+            opaque, other = (a, b) if isinstance(a, Opaque) else (b, a)
+            if opaque.tag == "str" and isinstance(other, str) and other == "" and opaque.truthy is not None:
+                return not opaque.truthy  # a text known to be non-empty differs from "", one known to be empty equals it
             raise Undecided("equality on opaque value (%r == %r)" % (a, b))
         if isinstance(a, (Sym,)) or isinstance(b, (Sym,)):
             if isinstance(a, (Sym, int)) and isinstance(b, (Sym, int)) and not isinstance(a, bool) and not isinstance(b, bool):
@@ -1057,12 +1070,13 @@ class Interp:
                 index = self.binop(ast.Add(), index, 1)
         elif isinstance(value, _Islice):
             count = 0
-            if self.compare(ast.LtE(), value.limit, 0):
+            if value.limit is not None and self.compare(ast.LtE(), value.limit, 0):
                 return
             for item in self.iterate(value.inner):
-                yield item
+                if self.compare(ast.GtE(), count, value.start):
+                    yield item
                 count += 1
-                if not self.compare(ast.Lt(), count, value.limit):
+                if value.limit is not None and not self.compare(ast.Lt(), count, value.limit):
                     return
         elif isinstance(value, _Zip):
             iterators = [self.iterate(inner) for inner in value.inners]
@@ -1506,6 +1520,8 @@ class Interp:
                     truthy = True
                 if isinstance(left, Opaque) and left.truthy or isinstance(right, Opaque) and right.truthy:
                     truthy = True
+                if isinstance(op, ast.Add) and (isinstance(left, Atom) or isinstance(right, Atom)):
+                    truthy = True  # an atom stands for a non-empty text
                 return Opaque("str", truthy, _fragments(left) + _fragments(right))
             if isinstance(op, ast.Add) and isinstance(left, (list, tuple)) and isinstance(right, (list, tuple)):
                 return left + right
@@ -1563,9 +1579,10 @@ class _Enumerate:
 
 
 class _Islice:
-    def __init__(self, inner, limit):
+    def __init__(self, inner, limit, start=0):
         self.inner = inner
-        self.limit = limit
+        self.limit = limit  # None: no upper end
+        self.start = start
         self.generator = None
 
 
@@ -1867,9 +1884,11 @@ def _enumerate(interp, args, kwargs):
 
 @_ext("itertools.islice")
 def _islice(interp, args, kwargs):
-    if len(args) != 2:
-        raise Undecided("islice with %d arguments" % len(args))
-    return _Islice(args[0], args[1])
+    if len(args) == 2:
+        return _Islice(args[0], args[1])
+    if len(args) in (3, 4) and (len(args) == 3 or args[3] in (None, 1)):
+        return _Islice(args[0], args[2], start=0 if args[1] is None else args[1])
+    raise Undecided("islice with %d arguments" % len(args))
 
 
 @_ext("builtins.zip")
